@@ -1,7 +1,7 @@
 (** * C15: uniform entry points for the correspondence check (float instance).
     Every sampler is normalised to [stream -> option (values, draws consumed)]. *)
 From Coq Require Import ZArith List Floats.
-From Celer Require Import Base.Num Base.NumF Base.FloatFun Base.Stream Base.Vec3 C15.Samplers.
+From Celer Require Import Base.Num Base.NumF Base.FloatFun Base.Stream Base.Vec3 C15.Samplers C15.Eloss.
 Import ListNotations.
 
 Definition fin {A} (f : A -> list float) (s : list float) (r : option (A * list float))
@@ -24,3 +24,13 @@ Definition run_normal2 m sd s := fin (fun p => [fst p; snd p]) s (normal2 (T:=fl
 Definition run_poisson clamp l s := fin (fun k => [fofZ k]) s (poisson (T:=float) clamp l s).
 Definition run_selector ws tot s := fin (fun i => [fofZ (Z.of_nat i)]) s (selector (T:=float) ws tot s).
 Definition run_gamma a b s := fin (fun x => [x]) s (gamma (T:=float) a b s).
+
+(** part 2: Tsai-Urban and energy-loss fluctuation distributions *)
+Definition run_tsaiurban e m s := fin (fun x => [x]) s (tsai_urban (T:=float) e m s).
+Definition run_elgauss mean sd s := fin (fun p => [fst p; snd p]) s (eloss_gauss2 (T:=float) mean sd s).
+Definition run_elgamma mean var s := fin (fun x => [x]) s (eloss_gamma (T:=float) mean var s).
+Definition run_elgauss1 mean var s :=
+  fin (fun p => [fst p]) s (eloss_gauss (T:=float) mean (PrimFloat.sqrt var) None s).
+Definition run_elmodel (ml me mt mr bv : float) := eloss_model ml me mt mr bv.
+Definition run_elurban (me sc b0 b1 x0 x1 xi : float) s :=
+  fin (fun x => [x]) s (eloss_urban (T:=float) (Urban me sc b0 b1 x0 x1 xi) s).
